@@ -306,6 +306,13 @@ func main() {
 							add("random", pp+"."+obj.Name())
 						case pp == "os" && (obj.Name() == "Getenv" || obj.Name() == "LookupEnv" || obj.Name() == "Hostname" || obj.Name() == "Getpid"):
 							add("env", "os."+obj.Name())
+						case strings.HasSuffix(pp, "go.uuid") && (obj.Name() == "NewV1" || obj.Name() == "NewV2" || obj.Name() == "NewV4"):
+							// time-, host- or entropy-based identifiers (NewV3 / NewV5 are hashes of their arguments)
+							add("random", "uuid."+obj.Name())
+						case pp == "github.com/google/uuid" && (obj.Name() == "New" || obj.Name() == "NewString" || obj.Name() == "NewRandom" || obj.Name() == "NewUUID" || obj.Name() == "NewDCEGroup" || obj.Name() == "NewDCEPerson"):
+							add("random", "uuid."+obj.Name())
+						case pp == "runtime" && (obj.Name() == "NumCPU" || obj.Name() == "NumGoroutine" || obj.Name() == "GOMAXPROCS"):
+							add("env", "runtime."+obj.Name())
 						}
 						// bank keeper calls
 						switch obj.Name() {
